@@ -316,9 +316,9 @@ func qrBits(mode, n int) int {
 }
 
 type qrPair struct {
-	lvl            int
-	modeA, nA      int
-	modeB, nB      int
+	lvl       int
+	modeA, nA int
+	modeB, nB int
 }
 
 // qrEqualBitPairs: two contents in different modes with exactly the same number of
